@@ -165,6 +165,9 @@ def _calls_of(F, key):
         if not names or NOISE.match(names[0]) or set((t.get("span") or {}).get("macros", [])) & {"debug", "trace", "info", "warn", "error", "format", "write", "println"}:
             continue
         ws = _is_ws(names)
+        if not ws and t["args"] and any(re.search(r"ops::function::(Fn::call|FnMut::call_mut)$", nm) for nm in names):
+            # a callback stored in a field of a parameter (`(ctx.header_allowed)(header)?`): a workspace-defined check like any other
+            ws = bool(re.match(r"^arg\d+(\.[a-z_][a-z0-9_]*)+$", render(ex.operand(t["args"][0]))))
         sink = (bool(SINK.search(strip_impl(names[-1]))) or bool(SINK.search(names[0]))) and not ALLOC_HINT.search(names[0])
         if not ws and not sink:
             continue
@@ -238,8 +241,8 @@ def summarize(F, key):
                 cuts = []
                 for c in by_key[ak]:
                     cuts += c["edges"] if c["kind"] not in ("unchecked", "diverges") else [(c["bi"], c["t"]["t"])]
-                if cuts and reach(fn, [nxt], {cb["bi"]}, cuts) is None:
-                    each.append([ak, bk])
+                if cuts and reach(fn, [nxt], {cb["bi"]}, cuts) is None and reach(fn, [0], {cb["bi"]}, cuts) is None:
+                    each.append([ak, bk])  # A precedes B in every iteration, the first one included
     # args of workspace sink calls, of std sink calls on shared state, and of workspace calls with two parameters of the same type (swap-prone)
     args = {}
     for bk, blst in sorted(by_key.items()):
@@ -250,6 +253,7 @@ def summarize(F, key):
     # guards: every real branch condition - `?`, log-level tests and loop headers excluded
     conds = {}
     guards = []
+    gcount = collections.Counter()
     for bi, e, arms, els in switch_conditions(fn):
         if _is_try_switch(fn, bi):
             continue  # `?`: covered by the must/order summaries
@@ -257,6 +261,8 @@ def summarize(F, key):
         if sig is None:
             continue
         conds[bi] = (sig, dict(arms), els)
+        if sig[0] != "branch":
+            gcount[json.dumps(sig)] += 1
         if sig not in guards:
             guards.append(sig)
     # comparisons whose result is used as a value (`let left = x == n - 1;`, `a > b` as the tail expression) are the same tests
@@ -305,19 +311,27 @@ def summarize(F, key):
                 adt = st["rv"]["adt"]
                 if re.search(r"(Error|ErrorKind)$", adt) and WS.match(norm(adt)):
                     var_blocks[short(adt, 1) + "::" + st["rv"]["variant"]].add(bi)
+    ok_rets0 = {b for b in rets if b not in dead}
     for var, tg in sorted(var_blocks.items()):
-        found = []
-        for bi, (sig, am, els) in conds.items():
-            outs = [(v, t2) for v, t2 in am.items()] + [("else", els)]
-            if len({t2 for _v, t2 in outs}) < 2:
-                continue
-            for v, t2 in outs:
-                others = [(bi, x) for _w, x in outs if x != t2]
-                if reach(fn, [0], tg, others) is not None and reach(fn, [0], tg, [(bi, t2)]) is None:
-                    if sig not in found:
-                        found.append(sig)
-        if found:
-            rejects[var] = sorted(found, key=lambda g: json.dumps(g))
+        per_site = []
+        for site in sorted(tg):
+            found = []
+            for bi, (sig, am, els) in conds.items():
+                outs = [(v, t2) for v, t2 in am.items()] + [("else", els)]
+                if len({t2 for _v, t2 in outs}) < 2:
+                    continue
+                for v, t2 in outs:
+                    others = [x for _w, x in outs if x != t2]
+                    if reach(fn, [0], {site}, [(bi, x) for x in others]) is not None and reach(fn, [0], {site}, [(bi, t2)]) is None:
+                        # only outcomes whose alternative carries on normally: a test whose other outcome is itself a rejection merely precedes this one
+                        if any(reach(fn, [x], ok_rets0, (), dead) is not None for x in others) and sig not in found:
+                            found.append(sig)
+            if found:
+                found.sort(key=lambda g: json.dumps(g))
+                if found not in per_site:
+                    per_site.append(found)
+        if per_site:
+            rejects[var] = per_site
     # assigns: origins of every value stored into a field of a parameter (`self.size = ..`, `trees.bitmap_accumulator = ..`)
     assigns = {}
     for bi, b in enumerate(fn["blocks"]):
@@ -355,7 +369,8 @@ def summarize(F, key):
         universe |= set(_stab(F, ex.local(0, 0, ())))
     gates = sorted({c["key"] for c in calls if c["kind"] in GATE or c["sink"]})
     return {"must": must, "order": order, "args": args, "guards": guards, "silent": silent, "assigns": assigns, "ret": ret,
-            "consts": const_census(fn), "universe": sorted(universe), "gates": gates, "rejects": rejects, "each": each}
+            "consts": const_census(fn), "universe": sorted(universe), "gates": gates, "rejects": rejects, "reject_vars": sorted(var_blocks), "each": each,
+            "guard_n": sorted([json.loads(g), c] for g, c in gcount.items() if c > 1), "guard_all": dict(gcount)}
 
 
 ALLOC_HINT = re.compile(r"::(with_capacity|reserve|reserve_exact)$")
@@ -532,8 +547,9 @@ def scope(F, prop_record, depth=2, want_named=False):
                 direct = set(callee_names(t)) | set(t.get("ncallables", ()))
                 for n in callees_poly(F, t):
                     if n in in_files and n not in out:
-                        if n not in direct and n in t.get("bridged", ()) and F.fns[n]["span"].get("exp"):
-                            continue  # derive-/macro-generated trait impls run by upstream generic code (Clone, Debug, PartialEq, serde): not mechanism
+                        if n not in direct and n in t.get("bridged", ()):
+                            continue  # trait impls run by upstream generic code on behalf of a call (Clone, Debug, PartialEq, From, Iterator::next):
+                            # reached by the no-reach rules (R4), but not part of the confirmed mechanism unless the property names them
                         nxt.add(n)
         out |= nxt
         frontier = nxt
@@ -588,6 +604,8 @@ def generate(F, prop_record, named_elsewhere=()):
             base_k = re.sub(r"(::\{closure#\d+\})+$", "", k)
             s["callers"] = sorted({_closure_role(F, c) for name in (k, strip_impl(k)) for (c, _bi) in F.callers.get(name, []) if c != k})[:12] if not s["closure"] else []
             s.pop("universe", None)
+            s.pop("guard_all", None)
+            s.pop("reject_vars", None)
             out[_closure_role(F, k)] = s
     return out
 
@@ -653,9 +671,16 @@ def _guard_present(ctx, cs, k, g, closures, helpers, relaxed=False):
         calls = {a[5:] for a in g1 if a.startswith("call:")}
         if calls:
             gated = set()
-            for x in pool:
+            # helpers that already existed on the reviewed tree gated their own calls then as well: only a new helper can have taken the test over
+            for x in [k] + closures + [h for h in helpers if short(h, 2) not in _b]:
                 gated |= {_short_callee(c) for c in cs.get(x)["gates"]}
-                gated |= {a[5:] for a in cs.get(x)["universe"] if a.startswith("call:")}
+                # a call whose result only flows on (stored, mapped, returned) does not gate anything: the test on it is gone
+                gated |= {a[5:] for cg in cs.get(x)["guards"] for a in cg[1] + cg[2] if a.startswith("call:")}
+            for x in closures:
+                role = _closure_role(F, x)
+                if re.search(r"@(?:Iterator|Option|Result)::(filter|filter_map|find|find_map|any|all|position|take_while|skip_while|map_while|and_then|is_some_and|is_ok_and)#\d+$", role):
+                    # the adaptor tests what the closure returns: the calls made in the closure gate the continuation through it
+                    gated |= {a[5:] for a in cs.get(x)["universe"] if a.startswith("call:")}
             if calls <= gated:
                 return True
             return False
@@ -846,7 +871,8 @@ def check(ctx, prop):
                     if not any(miss):
                         # a new filtering / truncating adaptor on the way into the call: part of the data no longer reaches the state change
                         extra = [sorted({a for a in cy if a.startswith("narrow:")} - set(bx)) for bx, cy in zip(base_alt, cur_alt)]
-                        if any(extra) and "narrow_checked" in b:
+                        sink_was_conditional = any(_short_callee(sk) == bc for sk in b.get("silent", {}))
+                        if any(extra) and "narrow_checked" in b and not sink_was_conditional:
                             best = [["+" + a for a in ex_] for ex_ in extra]
                             break
                         okay = True
@@ -876,6 +902,34 @@ def check(ctx, prop):
             ctx.record("baseline-guard", "R9", k, "%s: branch condition %s(%s ; %s) is present" % (short(k, 2), g[0], ",".join(g[1])[:80], ",".join(g[2])[:80]), "violation", [where],
                        ["on the confirmed tree %s branched on %s(%s ; %s); no branch with this operator and these operand origins remains (guard removed, weakened or its operands re-sourced)"
                         % (k, g[0], g[1], g[2]), "current conditions: %s" % [c for c in cur["guards"] if c[0] == g[0]][:4]], key_detail="guard:%s:%s:%s" % (g[0], ",".join(g[1])[:60], ",".join(g[2])[:60]))
+        # ---- guard multiplicity: several distinct tests can share one signature (`k == i`, `j == i`, `uvs[j] == uvs[i]` in the cycle walk):
+        # as many comparisons with that operator and those operand origins remain, here, in the closures or in directly called helpers
+        for g, cnt in b.get("guard_n", []):
+            n["guard_n"] += 1
+            have = 0
+            g1, g2 = _live_atoms(F, g[1]), _live_atoms(F, g[2])
+            for x in [k] + closures + helpers:
+                xs = cs.get(x)
+                loose = x != k  # parameter paths do not carry over into closures / helpers
+                for cg_s, c_n in xs.get("guard_all", {}).items():
+                    cg = json.loads(cg_s)
+                    if cg[0] != g[0]:
+                        continue
+                    def sub(a_, b_):
+                        a2 = {z for z in a_ if not (loose and (z.startswith("arg") or z.startswith("call:")))}
+                        return a2 <= set(b_)
+                    if not loose:
+                        # in the function itself a signature is counted exactly (a richer comparison is a different test)
+                        if set(cg[1]) == g1 and set(cg[2]) == g2 or (g[0] == "Eq" and set(cg[1]) == g2 and set(cg[2]) == g1):
+                            have += c_n
+                    elif (sub(g1, cg[1]) and sub(g2, cg[2])) or (g[0] == "Eq" and sub(g1, cg[2]) and sub(g2, cg[1])):
+                        have += c_n
+            if have >= cnt:
+                continue
+            bad += 1
+            ctx.record("baseline-guard-count", "R9", k, "%s: %d comparisons %s(%s ; %s) remain" % (short(k, 2), cnt, g[0], ",".join(g[1])[:60], ",".join(g[2])[:60]), "violation", [where],
+                       ["on the confirmed tree %s made %d distinct comparisons with operator %s and these operand origins; now only %d remain (one of the tests was dropped)" % (k, cnt, g[0], have)],
+                       key_detail="guardn:%s:%s:%s" % (g[0], ",".join(g[1])[:50], ",".join(g[2])[:50]))
         # ---- silent: a state change must not become conditional on a new non-rejecting condition
         base_cores = []
         for bk, conds in b.get("silent", {}).items():
@@ -903,27 +957,48 @@ def check(ctx, prop):
                 ctx.record("baseline-silent", "R9", k, "%s: %s is not skipped under a new condition" % (short(k, 2), bk), "violation", [where],
                            ["%s is now reached only when %s(%s ; %s) takes arm %s, and the other outcome carries on without it (on the confirmed tree it was not conditional on this)"
                             % (bk, sig[0], sig[1], sig[2], arm)], key_detail="silent:%s:%s" % (_short_callee(bk), sig[0]))
-        # ---- rejects: a named rejection keeps depending on the outcomes it depended on
-        for var, bsigs in b.get("rejects", {}).items():
-            csigs = cur.get("rejects", {}).get(var)
-            if csigs is None:
-                continue  # the variant is no longer constructed here (moved into a helper, or the rejection is gone: a guard/must matter)
-            ccores = [_core(F, cg) for cg in csigs]
-            for bs in bsigs:
-                bc = _core(F, bs)
-                if not bc:
-                    continue
+        # ---- rejects: every confirmed construction site of a named rejection still exists with the outcomes it depended on (new sites are additions)
+        for var, bsites in b.get("rejects", {}).items():
+            csites = cur.get("rejects", {}).get(var)
+            if csites is None:
+                if var not in cur.get("reject_vars", []):
+                    continue  # the variant is no longer constructed here (moved into a helper, or the rejection is gone: a guard/must matter)
+                csites = [[]]
+            for bsigs in bsites:
                 n["rejects"] += 1
-                if any(bc <= cc for cc in ccores):
+                bcs = [(bs, _core(F, bs)) for bs in bsigs]
+                bcs = [(bs, bc) for bs, bc in bcs if bc]
+                best = None
+                for csigs in csites:
+                    ccores = [(_core(F, cg), cg) for cg in csigs]
+                    miss = []
+                    for bs, bc in bcs:
+                        if any(bc <= cc for cc, _cg in ccores):
+                            continue
+                        calls = {a for a in bc if a.startswith("call:")}
+                        if calls and bs[0] == "branch" and any(calls <= cc for cc, _cg in ccores):
+                            continue
+                        miss.append(bs)
+                    if best is None or len(miss) < len(best):
+                        best = miss
+                    if not miss:
+                        break
+                if best:
+                    # the test moved into a closure of an iterator adaptor or into a helper (its verdict reaches the rejection through the
+                    # adaptor's result): tolerated when the function itself no longer makes the comparison but its cluster does
+                    own = cur["guards"]
+                    def in_own(g):
+                        c0 = _core(F, g)
+                        return any(cg[0] == g[0] and c0 <= _core(F, cg) for cg in own)
+                    best = [bs for bs in best if in_own(bs) or not _guard_present(ctx, cs, k, bs, closures, helpers)]
+                if not best:
                     continue
-                calls = {a for a in bc if a.startswith("call:")}
-                if calls and any(calls <= cc for cc in ccores) and bs[0] == "branch":
-                    continue
+                bs = best[0]
                 bad += 1
                 ctx.record("baseline-reject", "R9", k, "%s: the rejection %s still depends on %s(%s ; %s)" % (short(k, 2), var, bs[0], ",".join(bs[1])[:70], ",".join(bs[2])[:50]), "violation", [where],
-                           ["on the confirmed tree every construction of %s in %s was control dependent on an outcome of %s(%s ; %s); now %s is reachable without consulting it "
-                            "(the rejection was hoisted above / detached from the check that justified it); it now depends on: %s" % (var, k, bs[0], bs[1], bs[2], var, csigs[:3])],
-                           key_detail="reject:%s:%s:%s" % (var, bs[0], ",".join(sorted(bc))[:70]))
+                           ["on the confirmed tree this construction of %s in %s was control dependent on an outcome of %s(%s ; %s) whose other outcome carries on; now no construction of %s depends on it "
+                            "(the rejection was hoisted above / detached from the check that justified it)" % (var, k, bs[0], bs[1], bs[2], var)],
+                           key_detail="reject:%s:%s:%s" % (var, bs[0], ",".join(sorted(_core(F, bs)))[:70]))
         # ---- assigns
         for field, alts in b.get("assigns", {}).items():
             cur_alts = cur.get("assigns", {}).get(field)
